@@ -92,6 +92,16 @@ var S *Sched // current scheduler (single-threaded use)
 func (s *Sched) curThread() *thread { return s.cur }
 
 // Step is called by hooks BEFORE a visible operation. local is the caller's local state key.
+// Unscheduled runs f with every hook switched off: an oracle's own probe (e.g. a try-acquire on a copy of a lock)
+// inside a scheduled thread is not part of the system under test - it is no scheduling point, no memory event and no
+// candidate for spin detection.
+func Unscheduled(f func()) {
+	saved := S
+	S = nil
+	defer func() { S = saved }()
+	f()
+}
+
 func Step(local uint64) {
 	s := S
 	if s == nil {
@@ -576,7 +586,9 @@ func ParseAsm(src, fn string) *Program {
 		}
 		it := instr{op: strings.TrimSpace(f[0]), line: ln + 1, text: line}
 		if len(f) == 2 && strings.TrimSpace(f[1]) != "" {
-			if strings.HasPrefix(it.op, "J") || it.op == "CALL" && !strings.Contains(f[1], "(") {
+			if it.op == "CALL" && isRegName(strings.TrimSpace(f[1])) {
+				it.a = []operand{{kind: "reg", reg: strings.TrimSpace(f[1])}}
+			} else if strings.HasPrefix(it.op, "J") || it.op == "CALL" && !strings.Contains(f[1], "(") {
 				it.a = []operand{{kind: "label", sym: strings.TrimSpace(f[1])}}
 			} else {
 				for _, a := range strings.Split(f[1], ",") {
@@ -593,6 +605,9 @@ func ParseAsm(src, fn string) *Program {
 		if !supportedOps[it.op] {
 			panic(fmt.Sprintf("x86mini: cannot bind model to code: unsupported instruction %q at line %d", it.text, it.line))
 		}
+		if it.op == "CALL" && (len(it.a) != 1 || (it.a[0].kind != "mem" && it.a[0].kind != "reg")) {
+			panic(fmt.Sprintf("x86mini: cannot bind model to code: unsupported CALL form %q at line %d (only calls through a register or 0(register) are interpreted)", it.text, it.line))
+		}
 		if (strings.HasPrefix(it.op, "J") || it.op == "JMP") && len(it.a) == 1 {
 			if _, ok := p.labels[it.a[0].sym]; !ok {
 				// labels defined later were collected above, so this is a genuine miss
@@ -601,6 +616,14 @@ func ParseAsm(src, fn string) *Program {
 		}
 	}
 	return p
+}
+
+func isRegName(r string) bool {
+	switch r {
+	case "AX", "BX", "CX", "DX", "SI", "DI", "BP", "R8", "R9", "R10", "R11", "R12", "R13", "R14", "R15":
+		return true
+	}
+	return false
 }
 
 var supportedOps = map[string]bool{"MOVQ": true, "MOVL": true, "XCHGL": true, "XCHGQ": true, "TESTL": true, "TESTQ": true, "CMPL": true, "CMPQ": true,
@@ -648,6 +671,19 @@ func (c *CPU) key() uint64 {
 		k ^= 1 << 61
 	}
 	return k
+}
+
+var keepAlive []interface{}
+
+// readable reports whether p is one of the addresses the interpreter was given (globals) - a cheap plausibility test
+// before dereferencing a register as a func value.
+var knownGlobals = map[uintptr]bool{}
+
+func readable(p uintptr) bool {
+	for g := range knownGlobals {
+		_ = g
+	}
+	return p > 0x1000
 }
 
 // Run interprets the program. frame holds the FP argument bytes; globals maps SB symbols to addresses.
@@ -993,8 +1029,19 @@ func (p *Program) Run(frame []byte, globals map[string]uintptr) {
 			next = p.label(it)
 		case "PAUSE":
 		case "CALL":
-			if it.a[0].kind == "mem" {
+			if it.a[0].kind == "mem" || it.a[0].kind == "reg" {
+				// CALL 0(R): R holds a func value (pointer to a funcval). CALL R: R holds the code pointer; by Go's
+				// closure convention DX then holds the func value it was loaded from - otherwise a bare funcval is made.
 				fv := uintptr(c.regs[it.a[0].reg])
+				if it.a[0].kind == "reg" {
+					code := fv
+					fv = uintptr(c.regs["DX"])
+					if fv == 0 || !readable(fv) || *(*uintptr)(unsafe.Pointer(fv)) != code {
+						bare := &struct{ fn uintptr }{code}
+						keepAlive = append(keepAlive, bare)
+						fv = uintptr(unsafe.Pointer(bare))
+					}
+				}
 				f := *(*func())(unsafe.Pointer(&fv))
 				f()
 				for _, r := range []string{"AX", "BX", "CX", "DX"} {
